@@ -6,17 +6,20 @@ Import ListNotations.
 
 (* ================================================================ the common annotated graph *)
 (* everything the passes read: declared dtype codes (casts), declared dims (reshape passes), the constant payload
-   (_value_const_ints), its one-element test (_is_scalar_const_value) and its rank (_value_rank of a constant) *)
+   (_value_const_ints), its one-element test (_is_scalar_const_value) and its rank (_value_rank of a constant), the scalar
+   booleans and the false_const initializer of the Dropout inlining *)
 Record ograph := mkOG {
   o_nodes : list node; o_outputs : list name;
   o_dtype : name -> option Z; o_shape : name -> option (list dim); o_scalar : name -> bool;
-  o_crank : name -> option nat; o_const : name -> option (list Z) }.
+  o_crank : name -> option nat; o_const : name -> option (list Z);
+  o_bool : name -> option bool;      (* _read_scalar_bool_from_value_or_constant of a value that is not a graph input *)
+  o_fc : option name }.              (* the initializer called "false_const", if the graph has one *)
 Definition o_graph (g : ograph) : graph := mkGraph (o_nodes g) (o_outputs g).
 
 Definition updf {B} (f : name -> B) (x : name) (v : B) : name -> B := fun y => if Nat.eqb y x then v else f y.
 
 (* ---- the views the verified pass models work on *)
-Definition projR (g : ograph) : rgraphT := mkRT (o_nodes g) (o_outputs g) (o_const g).
+Definition projR (g : ograph) : rgraphT := mkRT (o_nodes g) (o_outputs g) (o_const g) 0.
 Definition projT (g : ograph) : tgraph := mkTG (o_nodes g) (o_outputs g) (o_scalar g).
 Definition projP (g : ograph) : pgraph := mkPG (o_nodes g) (o_outputs g) (o_shape g) (o_scalar g) (o_crank g).
 Definition concrete (ds : list dim) : option (list nat) := mapM (fun d => match d with DInt n => Some n | _ => None end) ds.
